@@ -11,19 +11,20 @@ model the code; the flag theorems in `Props/*skel.lean` are re-checked by the ke
 the code says now.
 
 kinds: 1 call · 2 defer · 3 go · 4 assign · 5 return · 6/7 closure open/close · 8/9 branch
-open/close · 10/11 loop open/close · 12 condition · 13 else.  names: see `Generated.dictNames`.
+open/close · 10/11 loop open/close · 12 condition · 13 else · 14 call with exact text.  names: see `Generated.dictNames`.
 -/
 namespace ColumnVerif.Skel
 open ColumnVerif.Generated
 
 /-- the dictionary version this file was written against -/
-def expectedDictVersion : Nat := 3
+def expectedDictVersion : Nat := 4
 
 def isCall (n : Nat) (t : Tok) : Bool := t.2.1 == 1 && t.2.2 == n
 def isDefer (n : Nat) (t : Tok) : Bool := t.2.1 == 2 && t.2.2 == n
 def isAssign (n : Nat) (t : Tok) : Bool := t.2.1 == 4 && t.2.2 == n
 def isCond (n : Nat) (t : Tok) : Bool := t.2.1 == 12 && t.2.2 == n
 def isRet (t : Tok) : Bool := t.2.1 == 5
+def isExact (n : Nat) (t : Tok) : Bool := t.2.1 == 14 && t.2.2 == n
 
 def has (l : List Tok) (p : Tok → Bool) : Bool := l.any p
 def cnt (l : List Tok) (p : Tok → Bool) : Nat := l.countP p
@@ -118,6 +119,11 @@ def cNewer := 60
 def nReplay := 61
 def cTtlPositive := 62
 def cNothingChanged := 63
+def xChunkAtIndex := 66
+def xRLockChunk := 67
+def xRUnlockChunk := 68
+def xLockChunk := 69
+def xUnlockChunk := 70
 
 /-! ### flags -/
 
@@ -130,7 +136,8 @@ def setLastInsideLatch : Bool := between Txn_rangeWrite (isCall nSLock) (isCall 
 /-- the commit closure (markers, updates, recorder, logger) runs inside the latch, once -/
 def delegateInsideLatch : Bool :=
   between Txn_rangeWrite (isCall nSLock) (isCall nSUnlock) (isCall nFn) && cnt Txn_rangeWrite (isCall nFn) == 1 &&
-  cnt Txn_rangeWrite (isCall nSLock) == 1 && cnt Txn_rangeWrite (isCall nSUnlock) == 1
+  cnt Txn_rangeWrite (isCall nSLock) == 1 && cnt Txn_rangeWrite (isCall nSUnlock) == 1 &&
+  has Txn_rangeWrite (isExact xLockChunk) && has Txn_rangeWrite (isExact xUnlockChunk)
 
 /-- order inside the commit closure: markers, column updates (early-out when nothing changed),
     recorder, logger; the closure is what `rangeWrite` gets -/
@@ -157,7 +164,9 @@ def readInsideRLatch : Bool :=
   readerLatched Txn_QueryAt && readerLatched Txn_rangeRead && readerLatched Txn_rangeReadPair &&
   -- the latch of `QueryAt` is the one of the row's chunk: `commit.ChunkAt(index)`, not a conversion
   cnt Txn_QueryAt (isCall nChunkAt) == 1 && cnt Txn_QueryAt (isCall nChunkConv) == 0 &&
-  ordered Txn_QueryAt [isCall nChunkAt, isCall nSRLock]
+  ordered Txn_QueryAt [isExact xChunkAtIndex, isExact xRLockChunk, isCall nF, isExact xRUnlockChunk] &&
+  has Txn_rangeRead (isExact xRLockChunk) && has Txn_rangeRead (isExact xRUnlockChunk) &&
+  has Txn_rangeReadPair (isExact xRLockChunk) && has Txn_rangeReadPair (isExact xRUnlockChunk)
 
 /-- `Snapshot`: recorder opened first; temp file removed, log closed and recorder released on every
     path (deferred right after the open); state written; recorder closed before the copy -/
